@@ -621,6 +621,18 @@ impl ExpressionPredicate {
         }
     }
 
+    /// Verification builds only: borrowed-operand entry points to the private evaluators.
+    #[cfg(kani)]
+    pub fn verif_eval_binary_op(&self, left: &Value, op: BinaryFilterOp, right: &Value) -> Option<Value> {
+        self.eval_binary_op(left, op, right)
+    }
+
+    /// Verification builds only: see `verif_eval_binary_op`.
+    #[cfg(kani)]
+    pub fn verif_eval_unary_op(&self, op: UnaryFilterOp, val: Option<Value>) -> Option<Value> {
+        self.eval_unary_op(op, val)
+    }
+
     fn eval_binary_op(&self, left: &Value, op: BinaryFilterOp, right: &Value) -> Option<Value> {
         match op {
             BinaryFilterOp::And => {
